@@ -8,7 +8,7 @@ META["explanation"] = ("Partial: the loop body of both physical-projection routi
                        "and on C04; termination and stopping accuracy are not decided.")
 META["not_decided"] = ["convergence to the nearest physical point (Boyle-Dykstra theorem T2 assumed)", "termination within max_iteration",
                        "accuracy implied by eps_proj_physical", "agreement with an independent SDP solve"]
-CLASSES = ["contracts.C05_all:Dykstra"]
+CLASSES = ["contracts.C05_all:Dykstra", "contracts.C05_all:EqStepUnderC05", "contracts.C05_all:EntryConversionUnderC05"]
 
 
 def _native(fn, **kw):
